@@ -168,7 +168,11 @@ def wfPkt (p : Pkt) : Bool :=
 
 /-- `dnsenc size=<n> <dump> => <wirehex> | panic:…` -/
 def judgeEnc (inp obs : List String) : Verdict :=
-  match getNat inp "size", undump inp, obs with
+  -- the observation is `<wirehex> back <what the crate's own decoder reads from it>` (or a panic)
+  let ownBack : Option String := match obs with
+    | _ :: "back" :: rest => some (" ".intercalate rest)
+    | _ => none
+  match getNat inp "size", undump inp, obs.take 1 with
   | some size, some p, [o] =>
     let mdl := serialiseWithSize p size
     if !wfPkt p then
@@ -207,9 +211,15 @@ def judgeEnc (inp obs : List String) : Verdict :=
         (if !p.tc && (tcBit != decide (present < total)) && wellFormed wire then ["unsat:C04.tc_iff_truncated:tc-bit"] else []) ++
         (match back, expect with
          | .ok b, some e => if wellFormed wire && dump b != dump e then
-             (if present < total then ["unsat:C04.truncated_is_prefix:sections-or-counts-differ", "unsat:C14.roundtrip:truncated"]
+             (if present < total then ["unsat:C04.truncated_is_prefix:sections-or-counts-differ", "unsat:C14.roundtrip:truncated",
+                                       "unsat:C03.wire_faithful:truncated-reply-is-not-a-prefix"]
               else ["unsat:C14.roundtrip:complete", "unsat:C03.wire_faithful:client-decodes-a-different-reply"]) else []
          | .error _, _ => if wellFormed wire then ["unsat:C14.roundtrip:own-decoder-rejects"] else []
+         | _, _ => []) ++
+        -- the implementation's decoder on the implementation's encoding
+        (match ownBack, expect with
+         | some b, some e => if wellFormed wire && b != "ok " ++ dump e then
+             [s!"unsat:C14.roundtrip:own-decoder-{if b == "err" then "rejects" else "reads-a-different-message"}"] else []
          | _, _ => [])
       { corr := agreeIf (m == wire) s!"model={toHex m}",
         spec := if spec.isEmpty then "sat" else ";".intercalate spec }
